@@ -42,13 +42,13 @@ HfKinds     == {"default", "first", "even"}
 
 \* ---- operation alphabet (by shape of the argument record) --------------------
 BodyTextOps == {"AddParagraph", "AddHeading", "AddFormattedParagraph", "AddFormattedText", "SetParaStyle", "SetParaFormat",
-                "AddMathFormula", "AddMathOMML", "AddInlineMath", "GenerateTOC", "AutoGenerateTOC", "SetTOCStyle",
+                "AddMathFormula", "AddMathOMML", "AddInlineMath", "GenerateTOC", "AutoGenerateTOC", "SetTOCStyle", "TOCSDT",
                 "AddTable", "SetCellText", "AddCellParagraph", "AddCellList", "AddNestedTable", "TableRows", "TableStyle"}
 ListOps     == {"AddListItem", "AddBulletList", "AddNumberedList", "CreateMultiLevelList"}
 FnOps       == {"AddFootnote", "AddFootnoteToRun"}
 EnOps       == {"AddEndnote"}
 PropOps     == {"SetTitle", "SetAuthor", "SetSubject", "SetKeywords", "SetDescription", "SetCategory", "SetDocumentProperties"}
-TextOps     == BodyTextOps \cup ListOps \cup FnOps \cup EnOps \cup PropOps \cup {"AddImageText"}      \* [op, tc]
+TextOps     == BodyTextOps \cup ListOps \cup FnOps \cup EnOps \cup PropOps \cup {"AddImageText", "SetFootnoteFormat"}      \* [op, tc]
 HeaderOps   == {"AddHeader", "AddHeaderWithPageNumber", "AddFormattedHeader"}
 FooterOps   == {"AddFooter", "AddFooterWithPageNumber", "AddFormattedFooter"}
 HfOps       == HeaderOps \cup FooterOps                                                              \* [op, kind, tc]
@@ -128,7 +128,7 @@ Creates(op) ==
     [] op.op \in FnOps -> {"footnotes"}
     [] op.op \in EnOps -> {"endnotes"}
     [] op.op \in PropOps \cup {"UpdateStatistics"} -> {"core", "app"}
-    [] op.op = "SetFootnoteConfig" -> {"settings"}
+    [] op.op \in {"SetFootnoteConfig", "SetFootnoteFormat"} -> {"settings"}
     [] OTHER -> {}
 
 \* part kinds a call writes (for attribution): created parts + what it edits in place
